@@ -344,11 +344,22 @@ process_xc_xen_note(kdump_ctx_t *ctx, uint32_t type,
 {
 	if (type == XEN_ELFNOTE_DUMPCORE_HEADER) {
 		struct xen_elfnote_header *header = desc;
-		uint64_t page_size = dump64toh(ctx, header->xch_page_size);
+		uint64_t page_size;
 
+		if (descsz < sizeof(*header))
+			return set_error(ctx, KDUMP_ERR_CORRUPT,
+					 "Xen dumpcore header too short: %zu",
+					 descsz);
+		page_size = dump64toh(ctx, header->xch_page_size);
 		return set_page_size(ctx, page_size);
 	} else if (type == XEN_ELFNOTE_DUMPCORE_FORMAT_VERSION) {
-		uint64_t version = dump64toh(ctx, *(uint64_t*)desc);
+		uint64_t version;
+
+		if (descsz < sizeof(version))
+			return set_error(ctx, KDUMP_ERR_CORRUPT,
+					 "Xen dumpcore format version too short: %zu",
+					 descsz);
+		version = dump64toh(ctx, get_unaligned_uint64_t(desc));
 
 		if (version != 1)
 			return set_error(ctx, KDUMP_ERR_NOTIMPL,
